@@ -159,22 +159,22 @@ RECURSIVE Chunks(_, _, _, _)
 \* cut[i] = TRUE: a read ends after byte i
 Chunks(cut, i, acc, L) == IF i > L THEN <<>>
                           ELSE IF i = L \/ cut[i] THEN <<acc + 1>> \o Chunks(cut, i + 1, 0, L) ELSE Chunks(cut, i + 1, acc + 1, L)
-S7P == (1..8) \X {1, 2} \X {1, 2} \X {1, 2} \X { <<"none", 0>>, <<"delay", 100>> } \X {0, 5}
+S7P == (1..8) \X {1, 2} \X {1, 2} \X {1, 2} \X { <<"none", 0>>, <<"delay", 100>> } \X {0, 5} \X BOOLEAN    \* ... x Content-MD5 computed
 S7K(p) == [1..(p[1] - 1) -> BOOLEAN]
 S7B(p, cut) ==
   LET L == p[1] E == p[2] B == p[3] cnt == p[4] car == p[5] sc == p[6] IN
     [ fam |-> "S7",
       cfg |-> [scheme |-> 0, E |-> BigE, B |-> 8, interleave |-> 2, queues |-> << <<0, 1>> >>, sct |-> FALSE],
-      objs |-> << [clen |-> L, oti |-> Oti(sc, E, B, IF sc = 0 THEN 0 ELSE 1, TRUE), count |-> cnt, car |-> car, md5 |-> FALSE,
+      objs |-> << [clen |-> L, oti |-> Oti(sc, E, B, IF sc = 0 THEN 0 ELSE 1, TRUE), count |-> cnt, car |-> car, md5 |-> p[7],
                    chunks |-> Chunks(cut, 1, 0, L)] >>,
       srcs |-> <<"buffer", "stream">>,
       ops |-> << <<"add", 1>>, <<"publish">>, <<"drain">>, <<"adv", 1500>>, <<"drain">>, <<"adv", 1500>>, <<"drain">> >> ]
 \* larger objects through a file, a BufReader with a tiny buffer, fixed small chunks and one byte at a time
-S7bP == {100, 257, 1000} \X {7, 16} \X {3, 8} \X {0, 5, 6} \X {1, 2}
+S7bP == {100, 257, 1000} \X {7, 16} \X {3, 8} \X {0, 5, 6} \X {1, 2} \X BOOLEAN \X {0, 3}    \* ... x Content-MD5 x content encoding
 S7bB(p, k) ==
     [ fam |-> "S7b",
       cfg |-> [scheme |-> 0, E |-> BigE, B |-> 8, interleave |-> 2, queues |-> << <<0, 1>> >>, sct |-> FALSE],
-      objs |-> << [clen |-> p[1], oti |-> Oti(p[4], p[2], p[3], IF p[4] = 0 THEN 0 ELSE 2, TRUE), count |-> p[5], md5 |-> FALSE,
+      objs |-> << [clen |-> p[1], oti |-> Oti(p[4], p[2], p[3], IF p[4] = 0 THEN 0 ELSE 2, TRUE), count |-> p[5], md5 |-> p[6], cenc |-> p[7],
                    car |-> <<"delay", 100>>, chunks |-> <<k>>, bufcap |-> 5] >>,
       srcs |-> <<"buffer", "stream", "file", "bufreader">>,
       ops |-> << <<"add", 1>>, <<"publish">>, <<"drain">>, <<"adv", 1500>>, <<"drain">> >> ]
